@@ -96,9 +96,14 @@ func (k *bscKeys) headerRoot(number uint64, parent common.Hash, signer int, coin
 	if !coinbaseOK {
 		coinbase = k.Addrs[signer%4] // another validator's address
 	}
+	difficulty := big.NewInt(diff)
+	if diff > 100 {
+		// classes 101 / 102: a difficulty wider than 64 bits whose low 64 bits are 1 / 2
+		difficulty = new(big.Int).Add(new(big.Int).Lsh(big.NewInt(1), 64), big.NewInt(diff-100))
+	}
 	h := &bsctypes.Header{
 		ParentHash: parent.Bytes(), UncleHash: gethtypes.CalcUncleHash(nil).Bytes(), Coinbase: coinbase.Bytes(), Root: root,
-		TxHash: make([]byte, 32), ReceiptHash: make([]byte, 32), Bloom: make([]byte, 256), Difficulty: big.NewInt(diff).Bytes(),
+		TxHash: make([]byte, 32), ReceiptHash: make([]byte, 32), Bloom: make([]byte, 256), Difficulty: difficulty.Bytes(),
 		Height: clienttypes.NewHeight(0, number), GasLimit: 30_000_000, GasUsed: 0, Time: 1_577_000_000 + number*3, Extra: extra,
 		MixDigest: make([]byte, 32), Nonce: make([]byte, 8),
 	}
